@@ -72,6 +72,8 @@ struct SchedState {
     /// kernel thread ids of the clients (to see whether a running client is blocked on a lock)
     tids: Vec<i32>,
     enabled: bool,
+    /// a looping command was detected: every client thread stops for good at its next scheduling point
+    poisoned: bool,
 }
 
 pub struct Sched {
@@ -91,6 +93,7 @@ impl Sched {
                 about: vec![""; n],
                 tids: vec![0; n],
                 enabled: true,
+                poisoned: false,
             }),
             cv: Condvar::new(),
             cvs: (0..n).map(|_| Condvar::new()).collect(),
@@ -101,9 +104,26 @@ impl Sched {
     pub fn yield_point(&self, what: &'static str) {
         let me = match CLIENT_ID.with(|c| c.get()) {
             Some(m) => m,
-            None => return,
+            None => {
+                // set-up and probe commands run unscheduled on the controller's thread; one that loops
+                // is stopped by unwinding out of the store operation it is about to make
+                let n = UNSCHED_STEPS.with(|c| {
+                    c.set(c.get() + 1);
+                    c.get()
+                });
+                if n > MAX_STEPS {
+                    UNSCHED_STEPS.with(|c| c.set(0));
+                    panic!("{}", LOOP_MARKER);
+                }
+                return;
+            }
         };
-        let mut g = self.st.lock().unwrap();
+        let g = self.st.lock().unwrap();
+        if g.poisoned {
+            drop(g);
+            panic!("{}", LOOP_MARKER);
+        }
+        let mut g = g;
         if !g.enabled {
             return;
         }
@@ -128,6 +148,14 @@ impl Sched {
         g.status[me] = St::Done;
         g.granted[me] = false;
         self.cv.notify_one();
+    }
+
+    /// after a looping command was detected: the (leaked) client threads must not spin for ever
+    fn poison(&self) {
+        let mut g = self.st.lock().unwrap();
+        g.poisoned = true;
+        g.enabled = false;
+        self.cv.notify_all();
     }
 
     /// release every parked client (used after a stall was detected, so that threads can end)
@@ -284,6 +312,14 @@ fn parked_exists_other(g: &SchedState, w: usize) -> bool {
     (0..g.status.len()).any(|i| i != w && g.status[i] == St::Parked && !g.granted[i])
 }
 
+thread_local! {
+    static UNSCHED_STEPS: std::cell::Cell<usize> = const { std::cell::Cell::new(0) };
+}
+pub const LOOP_MARKER: &str = "verif: this command made thousands of store operations without completing (stopped by the harness)";
+
+/// upper bound of scheduled store operations in one schedule
+pub const MAX_STEPS: usize = 5000;
+
 pub struct RunOpts {
     /// seconds the controller waits for a granted step to return
     pub stall_secs: u64,
@@ -308,9 +344,21 @@ pub fn run_schedule(prog: &ConcProg, choices: &[usize], opts: &RunOpts) -> ExecT
     let mut trace = ExecTrace::default();
     // setup (unscheduled: CLIENT_ID is None on this thread)
     let mut cx = ClientCtx { handler: BinaryHandler::new(stack.memc.clone()), codec: MemcacheBinaryCodec::new(prog.item_limit) };
+    UNSCHED_STEPS.with(|c| c.set(0));
     for c in &prog.setup {
-        let (r, _) = exec_one(&mut cx, c);
-        trace.setup.push((c.clone(), r));
+        let r = std::panic::catch_unwind(std::panic::AssertUnwindSafe(|| exec_one(&mut cx, c)));
+        match r {
+            Ok((r, _)) => trace.setup.push((c.clone(), r)),
+            Err(p) => {
+                let m = crate::panics::payload_to_string(&p);
+                if m.contains(LOOP_MARKER) {
+                    trace.stalled = Some(format!("the set-up command {} (run alone, before any client starts) made more than {} store operations without completing - it loops for ever", c.short(), MAX_STEPS));
+                } else {
+                    trace.panics.push(m);
+                }
+                return trace;
+            }
+        }
     }
     timer.add(prog.advance);
 
@@ -427,6 +475,26 @@ pub fn run_schedule(prog: &ConcProg, choices: &[usize], opts: &RunOpts) -> ExecT
             if runnable.is_empty() {
                 break;
             }
+            // a command is a bounded number of store operations (a handful, plus one per evicted record):
+            // a schedule of thousands of steps for at most six commands is a command that loops
+            if trace.steps.len() >= MAX_STEPS {
+                let mut per: Vec<usize> = vec![0; n];
+                for (c, _) in &trace.steps {
+                    per[*c] += 1;
+                }
+                let tail: Vec<String> = trace.steps.iter().rev().take(6).rev().map(|(c, a)| format!("{}:{}", c, a)).collect();
+                trace.stalled = Some(format!(
+                    "the clients executed {} store operations (per client {:?}) without completing their {} commands - a command loops for ever; last operations {:?}",
+                    trace.steps.len(),
+                    per,
+                    prog.clients.iter().map(|c| c.len()).sum::<usize>(),
+                    tail
+                ));
+                trace.steps.truncate(60);
+                drop(g);
+                sched.poison();
+                break;
+            }
             let want = choices.get(ci).copied().unwrap_or(0);
             let pick = want.min(runnable.len() - 1);
             trace.widths.push(runnable.len());
@@ -462,6 +530,7 @@ pub fn run_schedule(prog: &ConcProg, choices: &[usize], opts: &RunOpts) -> ExecT
             trace.stored_records += 1;
         }
     }
+    UNSCHED_STEPS.with(|c| c.set(0));
     for (i, k) in prog.probe_keys.iter().enumerate() {
         let mut c = Cmd::getk(&k.0);
         c.opaque = 0xF000_0000 + i as u32;
